@@ -229,6 +229,27 @@ def _unroll(facts, n, stack):
     return {"k": "block", "s": out, "e": None, "l": n.get("l"), "unrolled": len(rows)}
 
 
+def _bool_match(n):
+    """N3: `match c { true => A, false => B }` (either order, `_` for the second arm) is `if c { A } else { B }`"""
+    arms = n.get("arms", [])
+    if len(arms) != 2 or any(a.get("g") for a in arms):
+        return None
+
+    def lit(p):
+        while isinstance(p, dict) and p.get("k") in ("deref", "derefpat"):
+            p = p["p"]
+        if isinstance(p, dict) and p.get("k") == "const" and p.get("ty") == "bool" and isinstance(p.get("b"), bool):
+            return p["b"]
+        if isinstance(p, dict) and p.get("k") == "wild":
+            return "_"
+        return None
+    l0, l1 = lit(arms[0]["p"]), lit(arms[1]["p"])
+    if not isinstance(l0, bool) or l1 is None or l1 == l0:
+        return None
+    t, e = (arms[0]["b"], arms[1]["b"]) if l0 else (arms[1]["b"], arms[0]["b"])
+    return {"k": "if", "c": n["e"], "t": t, "e": e, "l": n.get("l"), "ty": n.get("ty")}
+
+
 def _norm(facts, n, stack):
     if isinstance(n, list):
         return [_norm(facts, x, stack) for x in n]
@@ -257,6 +278,10 @@ def _norm(facts, n, stack):
         u = _unroll(facts, n, stack)
         if u is not None:
             return u
+    if k == "match" and n.get("src") == "Normal":
+        b = _bool_match(n)
+        if b is not None:
+            return _norm(facts, b, stack)
     return {kk: (_norm(facts, vv, stack) if isinstance(vv, (dict, list)) else vv) for kk, vv in n.items()}
 
 
@@ -269,6 +294,8 @@ def needs(facts, tree):
         if k == "fn" and x.get("def") not in kn and facts.find_fn(x.get("def")) is not None:
             return True
         if k == "const" and x.get("def") not in kn and facts.const_init(x.get("def")) is not None:
+            return True
+        if k == "match" and x.get("src") == "Normal" and _bool_match(x) is not None:
             return True
     return False
 
